@@ -16,8 +16,34 @@ extern int *log_table;
 #define MAXT 16
 static pthread_barrier_t g_bar;
 
+/* erasure patterns of a code, most demanding first: data-only sets of the largest tolerated size
+   (for flat XOR these are the ones that take the rarely used decoder paths), then smaller ones,
+   then a sample of mixed data/parity sets */
+static int patterns_for(cfg_t c, uint64_t *out, int max) {
+    int n = c.k + c.m, tol = cfg_tolerance(c), cnt = 0;
+    if (tol > 4) tol = 4;
+    for (int e = tol; e >= 1 && cnt < max; e--) {
+        int idx[4] = { 0, 1, 2, 3 };
+        if (e > c.k) continue;
+        for (;;) {
+            uint64_t pat = 0; for (int i = 0; i < e; i++) pat |= 1ull << idx[i];
+            if (cnt < max) out[cnt++] = pat;
+            int i = e - 1;
+            while (i >= 0 && idx[i] == c.k - e + i) i--;
+            if (i < 0) break;
+            idx[i]++; for (int j = i + 1; j < e; j++) idx[j] = idx[j - 1] + 1;
+        }
+    }
+    for (int t = 0; t < 24 && cnt < max; t++) {
+        int e = 1 + (int)rnd(tol); uint64_t pat = 1ull << rnd(c.k); int have = 1;
+        while (have < e) { int i = (int)rnd(n); if (!((pat >> i) & 1)) { pat |= 1ull << i; have++; } }
+        out[cnt++] = pat;
+    }
+    return cnt;
+}
+
 /* ------------------------------------------------------------------ A: one shared descriptor */
-typedef struct { stripe_t *s; int rounds; int tid; int bad; } shared_a;
+typedef struct { stripe_t *s; int rounds; int tid; int bad; const uint64_t *pats; int npats; } shared_a;
 
 static void *shared_worker(void *va) {
     shared_a *a = va; stripe_t *s = a->s; cfg_t c = s->c;
@@ -25,15 +51,18 @@ static void *shared_worker(void *va) {
     pthread_barrier_wait(&g_bar);
     for (int r = 0; r < a->rounds; r++) {
         st = st * 6364136223846793005ull + 1442695040888963407ull;
-        /* encode the same data: bytes must equal the reference stripe */
+        /* every thread has its own data: bytes must equal that thread's reference stripe */
         char **ed = NULL, **ep = NULL; uint64_t fl = 0;
         if (liberasurecode_encode(s->desc, (char *)s->data, s->len, &ed, &ep, &fl) != 0) { a->bad++; continue; }
         for (int i = 0; i < c.k; i++) if (memcmp(ed[i], s->all[i], fl)) a->bad++;
         for (int i = 0; i < c.m; i++) if (memcmp(ep[i], s->all[c.k + i], fl)) a->bad++;
-        /* decode without one fragment */
-        int drop = (int)((st >> 33) % (uint64_t)s->n);
+        /* decode without the fragments of this round's pattern: all threads are in the same decoder
+           path at the same time, each with different contents */
+        uint64_t pat = a->pats[r % a->npats];
+        int drop = __builtin_ctzll(pat);
         char *fr[80]; int n = 0;
-        for (int i = 0; i < s->n; i++) if (i != drop) fr[n++] = i < c.k ? ed[i] : ep[i - c.k];
+        for (int i = 0; i < s->n; i++) if (!((pat >> i) & 1)) fr[n++] = i < c.k ? ed[i] : ep[i - c.k];
+        pthread_barrier_wait(&g_bar);
         char *od = NULL; uint64_t ol = 0;
         if (liberasurecode_decode(s->desc, fr, n, fl, (int)(st & 1), &od, &ol) != 0) a->bad++;
         else { if (ol != s->len || memcmp(od, s->data, ol)) a->bad++; liberasurecode_decode_cleanup(s->desc, od); }
@@ -52,27 +81,33 @@ static void *shared_worker(void *va) {
 }
 
 static int run_shared(cfg_t c, int threads, int rounds) {
-    stripe_t s;
-    if (stripe_make(&s, c, 300 + rnd(200), 0, 0) != 0) return -1;
+    static stripe_t s[MAXT]; static uint64_t pats[512];
+    size_t len = 300 + rnd(200);
+    for (int t = 0; t < threads; t++) if (stripe_make(&s[t], c, len, 0, 0) != 0) return -1;   /* random, different contents */
+    int np = patterns_for(c, pats, 512);
+    if (rounds < 0) rounds = np;                 /* one pass over all patterns */
+    rounds = (rounds + 7) & ~7;                  /* barrier every 8 rounds: same count in every thread */
     pthread_t th[MAXT]; shared_a a[MAXT];
     pthread_barrier_init(&g_bar, NULL, (unsigned)threads);
-    for (int t = 0; t < threads; t++) { a[t] = (shared_a){ &s, rounds, t, 0 }; pthread_create(&th[t], NULL, shared_worker, &a[t]); }
+    for (int t = 0; t < threads; t++) { a[t] = (shared_a){ &s[t], rounds, t, 0, pats, np }; pthread_create(&th[t], NULL, shared_worker, &a[t]); }
     int bad = 0;
     for (int t = 0; t < threads; t++) { pthread_join(th[t], NULL); bad += a[t].bad; }
     pthread_barrier_destroy(&g_bar);
-    stripe_free(&s);
+    for (int t = 0; t < threads; t++) stripe_free(&s[t]);
     return bad;
 }
 
 /* ------------------------------------------------------------------ B: own instances */
-typedef struct { int tid; int rounds; int threads; int bad; int *descs; } own_a;
-static const int OWN_SHAPES[][4] = { {6,4,2,2}, {6,3,3,3}, {3,5,5,3}, {0,3,2,2}, {6,2,1,1}, {3,3,3,3} };
+typedef struct { int tid; int rounds; int threads; int bad; int *descs; int same; } own_a;
+static const int OWN_SHAPES[][4] = { {6,4,2,2}, {6,3,3,3}, {3,5,5,3}, {0,3,2,2}, {6,2,1,1}, {3,3,3,3}, {3,10,6,4}, {3,6,6,4} };
+#define N_OWN 8
 
 static void *own_worker(void *va) {
     own_a *a = va;
-    unsigned char data[211]; for (int i = 0; i < 211; i++) data[i] = (unsigned char)(i * 3 + a->tid);
+    unsigned char data[211]; for (int i = 0; i < 211; i++) data[i] = (unsigned char)(i * 3 + a->tid * 29 + (i >> 3));
     for (int r = 0; r < a->rounds; r++) {
-        const int *sh = OWN_SHAPES[(a->tid + r) % 6];
+        /* `same`: all threads use equally shaped instances of the hd=4 flat XOR code in this round */
+        const int *sh = a->same ? OWN_SHAPES[6 + (r & 1)] : OWN_SHAPES[(a->tid + r) % N_OWN];
         struct ec_args ar; memset(&ar, 0, sizeof ar); ar.k = sh[1]; ar.m = sh[2]; ar.hd = sh[3]; ar.ct = CHKSUM_CRC32;
         pthread_barrier_wait(&g_bar);                       /* creates collide */
         int d = liberasurecode_instance_create((ec_backend_id_t)sh[0], &ar);
@@ -85,27 +120,35 @@ static void *own_worker(void *va) {
             if (liberasurecode_encode(d, (char *)data, 211, &ed, &ep, &fl) != 0) a->bad++;
             else {
                 if (sh[0] != 0) {
-                    char *fr[80]; int n = 0;
-                    for (int i = 1; i < sh[1]; i++) fr[n++] = ed[i];
-                    for (int i = 0; i < sh[2]; i++) fr[n++] = ep[i];
-                    char *od = NULL; uint64_t ol = 0;
-                    if (liberasurecode_decode(d, fr, n, fl, 0, &od, &ol) != 0) a->bad++;
-                    else { if (ol != 211 || memcmp(od, data, 211)) a->bad++; liberasurecode_decode_cleanup(d, od); }
+                    /* all data sets of the tolerated size (own mode "same": in lockstep), else the first fragment */
+                    cfg_t c = { sh[0], sh[1], sh[2], sh[3], 2 };
+                    int tol = cfg_tolerance(c); if (tol > 3) tol = 3; if (tol > c.k) tol = c.k;
+                    int reps = a->same ? 40 : 1;
+                    uint64_t pat = (1ull << tol) - 1;
+                    for (int q = 0; q < reps; q++) {
+                        char *fr[80]; int n = 0;
+                        for (int i = 0; i < sh[1] + sh[2]; i++) if (!((pat >> i) & 1)) fr[n++] = i < sh[1] ? ed[i] : ep[i - sh[1]];
+                        char *od = NULL; uint64_t ol = 0;
+                        if (liberasurecode_decode(d, fr, n, fl, 0, &od, &ol) != 0) a->bad++;
+                        else { if (ol != 211 || memcmp(od, data, 211)) a->bad++; liberasurecode_decode_cleanup(d, od); }
+                        /* next k-bit pattern with the same number of bits (Gosper), wrapping */
+                        uint64_t cc = pat & -pat, rr = pat + cc; pat = (((rr ^ pat) >> 2) / cc) | rr;
+                        if (pat >> sh[1]) pat = (1ull << tol) - 1;
+                    }
                 }
                 liberasurecode_encode_cleanup(d, ed, ep);
             }
         }
         pthread_barrier_wait(&g_bar);
         if (d > 0 && liberasurecode_instance_destroy(d) != 0) a->bad++;   /* destroys collide */
-        if (d > 0 && liberasurecode_get_fragment_size(d, 10) >= 0 && 0) a->bad++;
     }
     return NULL;
 }
 
-static int run_own(int threads, int rounds) {
+static int run_own(int threads, int rounds, int same) {
     pthread_t th[MAXT]; own_a a[MAXT]; int descs[MAXT];
     pthread_barrier_init(&g_bar, NULL, (unsigned)threads);
-    for (int t = 0; t < threads; t++) { a[t] = (own_a){ t, rounds, threads, 0, descs }; pthread_create(&th[t], NULL, own_worker, &a[t]); }
+    for (int t = 0; t < threads; t++) { a[t] = (own_a){ t, rounds, threads, 0, descs, same }; pthread_create(&th[t], NULL, own_worker, &a[t]); }
     int bad = 0;
     for (int t = 0; t < threads; t++) { pthread_join(th[t], NULL); bad += a[t].bad; }
     pthread_barrier_destroy(&g_bar);
@@ -218,12 +261,14 @@ void suite_conc(int tier) {
 #else
     int tsan = 0;
 #endif
-    cfg_t shared[] = { {6,4,2,2,2}, {3,5,5,3,2}, {6,10,4,4,1}, {3,10,6,4,1} };
+    cfg_t shared[] = { {6,4,2,2,2}, {3,5,5,3,2}, {3,10,6,4,1}, {6,10,4,4,1}, {3,12,6,4,2}, {3,6,6,4,2}, {3,10,5,3,2} };
     int tcounts[] = { 2, 3, 4, 8, 16 };
-    for (unsigned ci = 0; ci < (tier ? 4u : 2u); ci++) for (unsigned ti = 0; ti < (tier ? 5u : 3u); ti++) {
+    for (unsigned ci = 0; ci < (tier ? 7u : 3u); ci++) for (unsigned ti = 0; ti < (tier ? 5u : 3u); ti++) {
         int T = tcounts[ti];
+        if (!tier && ci == 2 && ti == 1) continue;
         op_begin("conc shared %d %d %d %d", shared[ci].be, shared[ci].k, shared[ci].m, T); op_sep();
-        int bad = run_shared(shared[ci], T, tier ? 60 : 15);
+        /* flat XOR: one pass over every pattern; others: a fixed number of rounds */
+        int bad = run_shared(shared[ci], T, shared[ci].be == 3 ? -1 : (tier ? 60 : 15));
         res_end(bad == 0 ? "ok" : "DIFFERENT");
         if (bad) oracle_fail("C18", "%d results of concurrent shared-descriptor calls differ from the sequential ones (be=%d, %d threads)", bad, shared[ci].be, T);
         stat_add("conc.shared_runs", 1);
@@ -231,10 +276,18 @@ void suite_conc(int tier) {
     for (unsigned ti = 0; ti < (tier ? 5u : 3u); ti++) {
         int T = tcounts[ti];
         op_begin("conc own %d", T); op_sep();
-        int bad = run_own(T, tier ? 40 : 10);
+        int bad = run_own(T, tier ? 40 : 10, 0);
         res_end(bad == 0 ? "ok" : "DIFFERENT");
         if (bad) oracle_fail("C18", "%d failures in concurrent create/use/destroy of per-thread instances (%d threads): duplicate descriptor, failed create or wrong round trip", bad, T);
         stat_add("conc.own_runs", 1);
+    }
+    for (unsigned ti = 0; ti < (tier ? 4u : 2u); ti++) {
+        int T = tcounts[ti + 1];
+        op_begin("conc ownsame %d", T); op_sep();
+        int bad = run_own(T, tier ? 8 : 3, 1);
+        res_end(bad == 0 ? "ok" : "DIFFERENT");
+        if (bad) oracle_fail("C18", "%d failures in concurrent decodes through equally shaped per-thread flat XOR instances (%d threads)", bad, T);
+        stat_add("conc.ownsame_runs", 1);
     }
     if (!tsan) {
         /* forced interleavings; a crash of the child is the result.  No instance may be alive:
